@@ -105,9 +105,12 @@ fn c02_main_track_adds_its_sounds_to_the_bus_then_applies_its_volume() {
 }
 
 // powf spy: records the exponent Decibels::as_amplitude hands to powf (it is only called between -60 dB and 0 dB exclusive)
-static mut KV_POW_EXP: f32 = 0.0;
-static mut KV_POW_N: u32 = 0;
-fn kv_powf_spy(base: f32, e: f32) -> f32 { unsafe { KV_POW_EXP = e; KV_POW_N += 1; } if base == 10.0 && e == -1.5 { 0.031622777 } else { 0.5 } }
+static mut KV_POW_SAW_HALF_WAY: bool = false;
+fn kv_powf_spy(base: f32, e: f32) -> f32 {
+	if base == 10.0 && e == -1.5 { unsafe { KV_POW_SAW_HALF_WAY = true; } return 0.031622777; }
+	if e == 0.0 { return 1.0; } // 10^0, should an implementation not special-case 0 dB
+	0.5
+}
 
 // @h prop=C02,C11 tier=quick kind=main timeout=600
 // @bounds real MainTrack (no sounds) whose volume tween from -60 dB arrives at exactly 0 dB at the END of this chunk of 2 frames; bus carries a symbolic small-integer signal. Native replay: frame 0 = bus x 10^(-30/20) within 1e-6, frame 1 = bus
@@ -135,7 +138,7 @@ fn c02_main_track_volume_ramp_into_0_db_is_applied_per_frame() {
 		return;
 	}
 	unsafe {
-		assert!(KV_POW_N == 1 && KV_POW_EXP == -1.5, "frame 0 is scaled by the volume half-way through the chunk (-30 dB), frame 1 by 0 dB");
+		assert!(KV_POW_SAW_HALF_WAY, "frame 0 is scaled by the volume half-way through the chunk (-30 dB)");
 	}
 	assert!(out[0].left == bus * 0.031622777 && out[1].left == bus && out[1].right == bus);
 	kani::cover!(bus == 2.0, "witness");
